@@ -72,3 +72,23 @@ PROPS["C10"] = {
          "cfg": {"vcfg": {"nodes": 1, "reader_calls": 2, "segs": 2}}, "cfg_thorough": {"vcfg": {"nodes": 2, "reader_calls": 2, "segs": 3}}},
     ],
 }
+
+PROPS["C12"] = {
+    "level": "other",
+    "level_text": "Symbolic execution of the real byteslice.Pool Get/Put/index (bit-vector arithmetic over all sizes/capacities up to 2^31 and all slice shapes inside a larger allocation) and of the real ring-buffer pool Get/Put, with sync.Pool as a nondeterministic exclusive hand-out; z3 decides length/capacity/no-overreach/no-double-hand-out obligations. Ownership of pooled memory by ring/list buffers (no use after Put, no double Put) is checked as a ghost oracle inside the C09/C10/C11 harnesses.",
+    "level_note": "Trusted: go/ssa lowering, SSA->SMT translation, z3, and sync.Pool's contract (an element is handed to exactly one Get; GC may drop elements) - goroutine interleavings inside sync.Pool are not encoded. The connection-level consequence (zone strings of net.TCPAddr put into the pool by conn.release) is checked in the gnet-package unit.",
+    "design_ref": "DESIGN.md section 5 (C12)",
+    "explanation": "Real pool code executed symbolically; the slice given to Put is an arbitrary window (offset, len, cap) of a larger allocation so that sub-slices and re-sliced tails are covered.",
+    "bounds": {"sizes": "[1, 2^31] (requests above MaxInt32 bypass the pool by design)", "pool_history": "<= 1 Put followed by <= 2 Gets per pool (one inductive hand-back/hand-out step)"},
+    "outside": ["concurrent Get/Put (delegated to sync.Pool)", "GC emptying pools (covered by the 'Get may return nil' alternative)"],
+    "assumptions": ["sync.Pool exclusivity", "calibrate() havoc'ed"],
+    "units": [
+        {"name": "byteslice", "pkgdir": "pkg/pool/byteslice", "files": ["harness/byteslice/c12_pool.go"], "mode": "bv"},
+        # ownership of pooled memory by its holder: the C11 harnesses carry the ghost oracle "no queued segment is in the
+        # pool / no memory is handed back twice" (vReleased, double-Put detection); they are re-run here for C12
+        {"name": "linkedlist-ownership", "pkgdir": "pkg/buffer/linkedlist", "files": ["harness/linkedlist/list_common.go", "harness/linkedlist/c11_list.go"], "mode": "int", "contracts": ["byteslice"],
+         "cfg": {"vcfg": {"nodes": 2, "reader_calls": 2}}, "cfg_thorough": {"vcfg": {"nodes": 3, "reader_calls": 3}}},
+        {"name": "rbpool", "pkgdir": "pkg/pool/ringbuffer", "files": ["harness/rbpool/c12_rbpool.go"], "mode": "int", "contracts": ["byteslice", "rb_calibrate_havoc"],
+         "extra": [("pkg/buffer/ring", "harness/ring/ring_common.go"), ("pkg/buffer/ring", "harness/ring/ring_export.go")]},
+    ],
+}
